@@ -1,6 +1,8 @@
 import ArgoVerif.Proofs.KTable
 import ArgoVerif.Proofs.KTableRaceT
 import ArgoVerif.Proofs.KTableConcX
+import ArgoVerif.Proofs.KeyId
+import ArgoVerif.Gen.Consts
 /-
 Props.C16 — work-unit-local storage behaves as an independent key→value map per
 work unit.  Property theorems only; lemmas live in Proofs/KTable.lean (sequential
@@ -380,5 +382,48 @@ example :
       (.storeLink 1 0 0)) = none := by decide
 
 end conc
+
+/-! ### key ids (Model.KeyId): `ABT_key_create` on any number of streams -/
+section keyid
+open ArgoVerif.Model.KeyId
+
+/-- **C16 (key ids are unique)**.  Whatever the interleaving of concurrent `ABT_key_create` calls
+(each takes its id with one atomic fetch-and-add on `g_key_id`): the ids returned to callers are
+pairwise distinct, all at least `start` (= `ABTI_KEY_ID_END_`, so none collides with the ids of the
+runtime's static keys), and below the counter.  Two keys therefore never share an element of any
+key table ("values never leak between keys").  (The counter is unbounded here: fewer than
+2^32 − 2 creations per process is an assumption.) -/
+theorem keyid_distinct (start : Nat) (tr : List Ev) (s : St) (h : (machine start).run (init start) tr = some s) :
+    s.returned.Nodup ∧ (∀ id, id ∈ s.returned → start ≤ id ∧ id < s.g) ∧
+    (∀ a a' id, s.pc a = .got id → s.pc a' = .got id → a = a') ∧
+    (∀ a id, s.pc a = .got id → id ∉ s.returned) := by
+  have hi := inv_run start tr s h
+  have hs := start_const start tr s h
+  refine ⟨hi.rnodup, ?_, hi.uniq, fun a id hp => (hi.got a id hp).2⟩
+  intro id hid
+  have := hi.range id (hi.rsub id hid)
+  rw [hs] at this; exact this
+
+/-- the static keys of thread.c use ids below the start of the counter (generated from the headers) -/
+theorem keyid_static_ids_reserved :
+    ArgoVerif.Gen.Consts.keyIdStackableSched < ArgoVerif.Gen.Consts.keyIdEnd ∧
+    ArgoVerif.Gen.Consts.keyIdMigration < ArgoVerif.Gen.Consts.keyIdEnd ∧
+    ArgoVerif.Gen.Consts.keyIdStackableSched ≠ ArgoVerif.Gen.Consts.keyIdMigration := by decide
+
+/-- non-vacuity: three creators interleaved; ids 2, 3, 4 -/
+example : ((machine 2).run (init 2)
+    [.call 0, .call 1, .call 2, .fetchAdd 1 2, .fetchAdd 0 3, .ret 0 3, .fetchAdd 2 4, .ret 2 4, .ret 1 2]).map
+      (fun s => (s.returned, s.g)) = some ([2, 4, 3], 5) := by decide
+
+/-- rejected: an observed read-modify-write that did not see the current counter is not a run -/
+example : (machine 2).run (init 2) [.call 0, .call 1, .fetchAdd 0 2, .fetchAdd 1 2] = none := by decide
+
+/-- what the atomicity buys: with the read-modify-write split into load and store two creators get
+the same id (this is NOT the model of the code; its events are not in `Ev`, so a trace containing a
+separate load or store of the counter is rejected by the driver as not being a run) -/
+example : (([SplitEv.load 0, .load 1, .store 0, .store 1].foldl splitExec ⟨2, fun _ => none, []⟩).ids) = [2, 2] := by
+  decide
+
+end keyid
 
 end ArgoVerif.Props.C16
